@@ -49,6 +49,21 @@ PROPS["C06"] = {
                     "cycle *reporting* text is dropped (R4); that a cycle yields Err is by the stack check, that no step of a cycle becomes Ready follows from inv1 but is not stated as a separate clause"],
 }
 
+PROPS["C18"] = {
+    "units": ["sched"],
+    "probes": {"sched": ["work::Work::want_file", "work::BuildStates::want_build"]},
+    "level": "proof",
+    "assumptions": SCHED_ASSUME + ["target selection (command-line names, else `default`, else every file; unknown name => error before anything runs) lives in run::build and is not under contract yet (unit run)",
+        "'no step outside the closure is ever run' is decided through C01 (a command starts only from state Queued, reached only from Ready/Want, reached only inside want_build); the converse 'only reachable builds are wanted' is not stated as a clause",
+        "-f / -C / builddir are process-level configuration: not decided"],
+}
+PROPS["C19"] = {
+    "units": ["sched"],
+    "probes": {"sched": ["work::BuildStates::set", "work::Work::run"]},
+    "level": "proof",
+    "assumptions": SCHED_ASSUME + ["`ran N tasks` / `no work to do` (run::run_impl) and that tasks_run counts exactly the successful commands are not under contract yet (units run / dirty)",
+        "the progress implementations behind &dyn Progress only read the counts they are handed"],
+}
 DB_ASSUME = [
     "io model (trusted): Write::write_all appends all bytes or, on error/crash, a prefix; Read::read_exact fails only with UnexpectedEof and exactly when fewer bytes remain (no other I/O errors while loading); BufReader::stream_position reports the bytes consumed",
     "str::len/as_bytes/from_utf8_unchecked are related through one uninterpreted utf-8 function; to_le_bytes/from_le_bytes are the little-endian codecs (R9 wrappers)",
@@ -74,6 +89,16 @@ NOT_APPLICABLE = {
 }
 
 LEVEL_TEXT = {
+    "C18": {
+        "text": "Unbounded proof (Verus): Work::want_file(target) ensures closed_u && closed_v: every wanted build has the producer of each of its explicit, implicit and order-only inputs wanted (an invariant of every moment) and of each validation input wanted (re-established on return, through the re-entrant validation recursion); the target's own producer is wanted; builds already wanted are untouched (mono).",
+        "note": "Only the closure half that lives in work.rs is decided; target selection in run::build and -f/-C/builddir are not. Trusted: as C01.",
+        "design_ref": "DESIGN.md §6 C18",
+    },
+    "C19": {
+        "text": "Unbounded proof (Verus): count_inv -- for each of the six displayed states the counter equals the number of non-phony builds currently in that state, and total_pending equals the number of builds in Want..Running -- is established by BuildStates::set's exact effect contract (incl. the isize cast in StateCounts::add proved not to wrap) and preserved by every transition of want_*/ready_dependents/run; hence at every progress.update(&counts) call the counts are exact, each wanted non-phony step is counted once, Running count == number of live commands (runner_inv + cmd_inv), and Done/Failed counts never decrease (no transition leaves Done/Failed).",
+        "note": "Final summary line and tasks_run accounting are not yet under contract. Trusted: as C01.",
+        "design_ref": "DESIGN.md §6 C19",
+    },
     "C07": {
         "text": "Unbounded proof (Verus) on the real (fixed) db.rs: for every byte stream that is a complete-records-plus-torn-tail stream (wf_stream: spec-level parser of the record grammar, ids defined before use), Reader::read_file returns Ok -- never an error, never a panic (all index obligations discharged) -- with exactly the complete records applied (read_record: a torn record is an EOF error that leaves ids, graph and hashes untouched) and returns the offset of the end of the last complete record (valid_len), to which db::open truncates before appending; files shorter than the header load as empty. Each record reaches the file in one write_all (RecordWriter::finish).",
         "note": "Two genuine defects found with this contract (torn tail => permanent load failure; 1-byte tail => misaligned appends) and fixed in /repo (a52cbb8). Trusted: io model (read_exact fails only with EOF), stream_position, utf-8 model. db::open/Reader::read glue not under contract.",
